@@ -1,0 +1,54 @@
+//! Verification hook (only compiled with `--cfg capy_verif`): exposes the
+//! crate-private symbol mangling (`Mangle` impls, `mangle_internal`) to the
+//! /verif harness of property C27.  One wrapper per `impl Mangle`.
+use std::path::Path;
+
+use hir::common::{
+    ComptimeLoc, ConcreteGlobalLoc, ConcreteLambdaLoc, ConcreteLoc, NaiveGlobalLoc,
+    NaiveLambdaLoc, NaiveLoc,
+};
+use interner::Interner;
+
+use crate::{builtin::BuiltinFunction, mangle::Mangle};
+
+pub fn naive_global(l: NaiveGlobalLoc, mod_dir: &Path, i: &Interner) -> String {
+    l.to_mangled_name(mod_dir, i)
+}
+pub fn naive_lambda(l: NaiveLambdaLoc, mod_dir: &Path, i: &Interner) -> String {
+    l.to_mangled_name(mod_dir, i)
+}
+pub fn naive(l: NaiveLoc, mod_dir: &Path, i: &Interner) -> String {
+    l.to_mangled_name(mod_dir, i)
+}
+pub fn concrete_global(l: ConcreteGlobalLoc, mod_dir: &Path, i: &Interner) -> String {
+    l.to_mangled_name(mod_dir, i)
+}
+pub fn concrete_lambda(l: ConcreteLambdaLoc, mod_dir: &Path, i: &Interner) -> String {
+    l.to_mangled_name(mod_dir, i)
+}
+pub fn concrete(l: ConcreteLoc, mod_dir: &Path, i: &Interner) -> String {
+    l.to_mangled_name(mod_dir, i)
+}
+pub fn comptime(l: ComptimeLoc, mod_dir: &Path, i: &Interner) -> String {
+    l.to_mangled_name(mod_dir, i)
+}
+pub fn comptime_data(l: ComptimeLoc, name: &str, mod_dir: &Path, i: &Interner) -> String {
+    (l, name).to_mangled_name(mod_dir, i)
+}
+pub fn internal(name: &str) -> String {
+    crate::mangle::mangle_internal(name)
+}
+/// Names of the builtin functions (`ptr_bitcast`, `<ty>_bitcast`).
+pub fn builtins(mod_dir: &Path, i: &Interner) -> Vec<String> {
+    use cranelift::prelude::types;
+    [
+        BuiltinFunction::PtrBitcast,
+        BuiltinFunction::ConcreteBitcast(types::I8),
+        BuiltinFunction::ConcreteBitcast(types::I64),
+        BuiltinFunction::ConcreteBitcast(types::F32),
+        BuiltinFunction::ConcreteBitcast(types::I128),
+    ]
+    .iter()
+    .map(|b| b.to_mangled_name(mod_dir, i))
+    .collect()
+}
